@@ -2,6 +2,8 @@
 import Restful.Driver.SExp
 import Restful.Go.Regex
 import Restful.Model.Route
+import Restful.Spec.Admits
+import Restful.Spec.Params
 namespace Restful.Driver
 open SExp
 
@@ -74,5 +76,17 @@ def decReal (e : SExp) : Option Real := do
   | _ => none
 
 def specLine (id : String) (ok : Bool) : String := s!" (spec {id} {if ok then 1 else 0})"
+
+end Restful.Driver
+
+namespace Restful.Driver
+
+/-- the answer to one `(route id req real)` line: model outcome, coverage tag, and every routing
+    property predicate evaluated on the REAL outcome -/
+def routeAnswer (id : String) (cfg : Config) (req : Req) (real : Real) : String :=
+  let (o, tag) := routeTagged implEnv cfg req
+  let specs := specLine "WF" cfg.wfTemplates ++ specLine "C01" (Spec.c01Holds implEnv cfg req real.outcome)
+    ++ specLine "C04" (Spec.c04Holds implEnv cfg req real.outcome)
+  s!"(out {id} {encOutcome o} (tag {tag}){specs})"
 
 end Restful.Driver
